@@ -122,6 +122,46 @@ func c17Systematic(tier string) []*Case {
 			out = append(out, cs)
 		}
 	}
+	// reads around a second boundary, half a millisecond off the grid: whatever the
+	// resolution, a later instant may not read as an earlier time
+	for _, base := range []int64{1_727_000_000_000, 0, -5000, 8_835_868_800_000} {
+		for off := int64(-3); off <= 0; off++ {
+			prog5 := lines(KwPrint+" "+FnClock+"();", KwPrint+" "+FnClock+"();", KwPrint+" "+FnClock+"();", KwPrint+" "+FnClock+"();", KwPrint+" "+FnClock+"();")
+			c := scriptCfg(prog5, "")
+			c.ClockStartMs = base + off
+			c.ClockStepsMs = []int64{1, 1, 1, 1, 1}
+			c.ClockNs = 500000
+			cs := &Case{Prop: "C17", Kind: "clock", Sig: "boundary", Program: prog5, Runs: []Run{{Role: "clock", Cfg: c}}}
+			cs.Aux = &Aux{C17: &C17Expect{PrintOrder: []int{0, 1, 2, 3, 4}, Calls: 5}}
+			out = append(out, cs)
+		}
+	}
+	// ক্লক() at the bottom of the deepest legal recursion (and one level above)
+	for _, depth := range []int{49999, 49998, 20000} {
+		p := lines(fmt.Sprintf("%s down(n) { %s (n > 0) { %s down(n - 1); } %s %s(); }", KwFun, KwIf, KwReturn, KwReturn, FnClock), fmt.Sprintf("%s down(%d);", KwPrint, depth))
+		c := scriptCfg(p, "")
+		c.Budget = 60000000
+		c.ClockStartMs = 1_727_000_000_000
+		cs := &Case{Prop: "C17", Kind: "clock", Sig: fmt.Sprintf("deep:%d", depth), Program: p, Runs: []Run{{Role: "fresh-process:clock", Cfg: c}}}
+		cs.Aux = &Aux{C17: &C17Expect{PrintOrder: []int{0}, Calls: 1}}
+		out = append(out, cs)
+	}
+	// in interactive mode every line sees the real ক্লক, whatever an earlier line did to the name
+	{
+		stdin := lines(FnClock+" = 0;", KwVar+" keep = "+FnClock+";", KwPrint+" "+FnClock+"();")
+		c := replCfg(stdin)
+		c.ClockStartMs = 1_727_000_000_000
+		cs := &Case{Prop: "C17", Kind: "clock-repl", Sig: "repl:rebound-earlier", Program: stdin, Runs: []Run{{Role: "clock", Cfg: c}}}
+		cs.Aux = &Aux{C17: &C17Expect{PrintOrder: []int{0}, Calls: 1}}
+		out = append(out, cs)
+	}
+	// misuse through callees that are not plain names
+	for _, call := range []string{"(" + FnClock + ")(1)", "[" + FnClock + "][0](1)", "({f: " + FnClock + "}).f(nil)", "h(" + FnClock + ")", FnClock + "(" + FnClock + "())"} {
+		p := lines(KwFun+" h(f) { "+KwReturn+" f(1, 2); }", KwPrint+" \"a\";", KwPrint+" "+call+";", KwPrint+" \"b\";")
+		cs := &Case{Prop: "C17", Kind: "arity", Sig: "arity-indirect:" + call, Program: p, Runs: []Run{{Role: "clock", Cfg: scriptCfg(p, "")}}}
+		cs.Aux = &Aux{C17: &C17Expect{Arity: true}}
+		out = append(out, cs)
+	}
 	// misuse: ক্লক(1) is a runtime error
 	for _, args := range []string{"1", "1, 2", "nil"} {
 		p := lines(KwPrint+" \"a\";", KwPrint+" "+FnClock+"("+args+");", KwPrint+" \"b\";")
@@ -160,7 +200,7 @@ func c17Eval(cs *Case, ctx *EvalCtx) []Violation {
 			nows = append(nows, e.N)
 		}
 	}
-	if o.FirstErr >= 0 || o.ExitStatus() != 0 {
+	if cs.Kind != "clock-repl" && (o.FirstErr >= 0 || o.ExitStatus() != 0) {
 		add("unexpected-diagnostic", fmt.Sprintf("exit=%d stderr=%q", o.ExitStatus(), o.Stderr))
 		return vs
 	}
@@ -168,8 +208,25 @@ func c17Eval(cs *Case, ctx *EvalCtx) []Violation {
 		add("clock-reads", fmt.Sprintf("%d ক্লক() calls but the wall clock was read %d times", ex.Calls, len(nows)))
 		return vs
 	}
-	ls := strings.Split(strings.TrimSuffix(o.Stdout, "\n"), "\n")
-	if o.Stdout == "" {
+	stdout := o.Stdout
+	if cs.Kind == "clock-repl" {
+		// keep only the lines that are numbers (prompts and echoes of the other lines are not judged)
+		var keep []string
+		for _, l := range strings.Split(stdout, "\n") {
+			f := strings.Fields(l)
+			if len(f) > 0 {
+				if _, err := strconv.ParseFloat(f[len(f)-1], 64); err == nil && strings.ContainsAny(f[len(f)-1], ".e") || (len(f) > 0 && len(f[len(f)-1]) > 6) {
+					keep = append(keep, f[len(f)-1])
+				}
+			}
+		}
+		stdout = strings.Join(keep, "\n")
+		if len(keep) > 0 {
+			stdout += "\n"
+		}
+	}
+	ls := strings.Split(strings.TrimSuffix(stdout, "\n"), "\n")
+	if stdout == "" {
 		ls = nil
 	}
 	if len(ls) != len(ex.PrintOrder) {
@@ -186,6 +243,24 @@ func c17Eval(cs *Case, ctx *EvalCtx) []Violation {
 		if math.IsNaN(v) || math.Abs(v-want) >= 1.0 {
 			add("wrong-time", fmt.Sprintf("print %d (call %d) shows %v but the wall clock stood at %v s (start %d ms, steps %v)", k, ex.PrintOrder[k], v, want, cs.Runs[0].Cfg.ClockStartMs, cs.Runs[0].Cfg.ClockStepsMs))
 			return vs
+		}
+	}
+	// a later instant never reads as an earlier time, the same instant reads the same
+	vals := make([]float64, len(ls))
+	for k, l := range ls {
+		vals[k], _ = strconv.ParseFloat(l, 64)
+	}
+	for a := 0; a < len(vals); a++ {
+		for b := 0; b < len(vals); b++ {
+			ta, tb := nows[ex.PrintOrder[a]], nows[ex.PrintOrder[b]]
+			if ta < tb && vals[a] > vals[b] {
+				add("clock-not-monotonic", fmt.Sprintf("the wall clock went from %d ms to %d ms but ক্লক() went from %v to %v", ta, tb, vals[a], vals[b]))
+				return vs
+			}
+			if ta == tb && vals[a] != vals[b] {
+				add("clock-not-monotonic", fmt.Sprintf("two reads at the same instant (%d ms) gave %v and %v", ta, vals[a], vals[b]))
+				return vs
+			}
 		}
 	}
 	if ctx.Stats != nil {
